@@ -134,17 +134,21 @@ public:
       shear_modulus(
           static_cast<NumericType>(0.125)
           * (static_cast<NumericType>(3) * p_wave_modulus.Value() + young_modulus.Value()
-             - ::std::sqrt(
+             - ::std::sqrt(::std::fmax(
                  ::std::pow(young_modulus.Value(), 2)
-                 + static_cast<NumericType>(9) * ::std::pow(p_wave_modulus.Value(), 2)
-                 - static_cast<NumericType>(10) * young_modulus.Value() * p_wave_modulus.Value()))),
+                     + static_cast<NumericType>(9) * ::std::pow(p_wave_modulus.Value(), 2)
+                     - static_cast<NumericType>(10) * young_modulus.Value()
+                           * p_wave_modulus.Value(),
+                 static_cast<NumericType>(0))))),
       lame_first_modulus(
           static_cast<NumericType>(0.25)
           * (p_wave_modulus.Value() - young_modulus.Value()
-             + ::std::sqrt(::std::pow(young_modulus.Value(), 2)
-                           + static_cast<NumericType>(9) * ::std::pow(p_wave_modulus.Value(), 2)
-                           - static_cast<NumericType>(10) * young_modulus.Value()
-                                 * p_wave_modulus.Value()))) {}
+             + ::std::sqrt(::std::fmax(
+                 ::std::pow(young_modulus.Value(), 2)
+                     + static_cast<NumericType>(9) * ::std::pow(p_wave_modulus.Value(), 2)
+                     - static_cast<NumericType>(10) * young_modulus.Value()
+                           * p_wave_modulus.Value(),
+                 static_cast<NumericType>(0))))) {}
 
   /// \brief Constructor. Constructs an elastic isotropic solid constitutive model from a given
   /// shear modulus and Poisson's ratio.
